@@ -28,7 +28,7 @@ class Val:
         self.addsym = addsym  # produced by Add over shape values (AVOID D5: never fed to Abs)
 
     def static(self):
-        return all(isinstance(d, int) for d in self.shape)
+        return all(isinstance(d, int) for d in self.shape)  # None / str dims are not static
 
     def numel(self):
         n = 1
@@ -409,8 +409,6 @@ def s_sequence(b: MB):
     if r < 0.5:
         same = [v for v in xs if v.shape == x.shape]
         elems = [b.rng.choice(same) for _ in range(b.rng.randint(1, 3))]
-        if b.rng.random() < 0.4:
-            elems = list({e.name: e for e in elems}.values())  # pairwise distinct (needed for new_axis=1, see C04-D5)
         sname = b.fresh("s")
         b.nodes.append(h.make_node("SequenceConstruct", [e.name for e in elems], [sname]))
         b.tag("seq_construct")
@@ -423,9 +421,6 @@ def s_sequence(b: MB):
         else:
             new_axis = b.rng.choice([0, 1])
             axis = b.rng.choice([0, 1])
-            if new_axis and len({e.name for e in elems}) != len(elems):
-                # AVOID C04-D5: new_axis=1 over a sequence with a repeated element (duplicate `<name>_unsqueeze` values)
-                new_axis = 0
             if new_axis:
                 oshape = list(x.shape)
                 oshape.insert(axis, len(elems))
@@ -441,6 +436,17 @@ def s_sequence(b: MB):
         keep = b.rng.choice([1, 1, 0])
         mode = b.rng.random()
         sname = b.fresh("s")
+        if mode < 0.08:
+            # split size decided at run time (C04-D2, fixed): the evaluator must decline
+            spv = b.add_input(TP.INT64, [])
+            b.nodes.append(h.make_node("SplitToSequence", [x.name, spv.name], [sname], axis=axis))
+            b.nodes.append(h.make_node("SequenceAt", [sname, b.const(np.array(0, dtype=np.int64)).name], [o := b.fresh()]))
+            oshape = list(x.shape)
+            oshape[axis] = None
+            b.vals.append(Val(o, TP.FLOAT, oshape))
+            b.consumed.add(x.name)
+            b.tag("sts_dynamic_scalar")
+            return
         if mode < 0.45:
             unev = [k for k in range(1, d + 1) if d % k]
             sz = b.rng.choice(unev) if unev and b.rng.random() < 0.5 else b.rng.randint(1, max(1, d))
@@ -588,10 +594,28 @@ def s_init_input(b: MB):
     x = b.pick(lambda u: dyn_f(u) and (u.shape == shape or shape == []))
     if x is not None:
         b.node("Add", [x, v], TP.FLOAT, x.shape)
-    if b.rng.random() < 0.3:
-        # AVOID C04-D1: an initializer-input is never read by a partial evaluator; Cast/Identity do not read values
+    r = b.rng.random()
+    if r < 0.25:
         b.node("Cast", [w], TP.FLOAT, shape, const=False, to=TP.FLOAT)
         b.tag("initinput_cast")
+    elif r < 0.6:
+        # an overridable default at a position whose *value* an evaluator would like to read (C04-D1, fixed):
+        # AVOID C04-D6: the initializer-input keeps a consumer that is not replaced (Reshape/Expand/Dropout stay)
+        x2 = b.pick(lambda u: dyn_f(u) and u.static() and len(u.shape) >= 1 and u.numel() > 0)
+        if x2 is not None:
+            k = b.rng.random()
+            if k < 0.4:
+                sw = b.add_init(np.array(x2.shape, dtype=np.int64), as_input=True)
+                b.node("Reshape", [x2, sw], TP.FLOAT, [None] * len(x2.shape), const=False)
+                b.tag("initinput_reshape")
+            elif k < 0.7:
+                sw = b.add_init(np.array(x2.shape, dtype=np.int64), as_input=True)
+                b.node("Expand", [x2, sw], TP.FLOAT, [None] * len(x2.shape), const=False)
+                b.tag("initinput_expand")
+            else:
+                rw = b.add_init(np.array(0.0, dtype=np.float32), as_input=True)
+                b.node("Dropout", [x2, rw, b.const(np.array(False))], TP.FLOAT, x2.shape, const=False)
+                b.tag("initinput_dropout_ratio")
 
 
 def s_const_nodes(b: MB):
@@ -697,6 +721,8 @@ def feeds_for(model, rng, variant: int, override: dict | None = None):
                 a = np.array([rng.uniform(-3, 3) for _ in range(n)], dtype=np.float32)
         elif tt.elem_type == TP.INT64:
             a = np.array([[0, 1, -1, 7][(k + variant) % 4] for k in range(n)], dtype=np.int64)
+            if not shape:
+                a = np.array([[2, 1, 3, 7][variant % 4]], dtype=np.int64)
         else:
             a = np.zeros(n, dtype=NP[tt.elem_type])
         feeds[i.name] = a.reshape(shape)
